@@ -166,6 +166,20 @@ func runC03() {
 		// the package-level helpers of zerolog/log must derive exactly what the methods derive
 		if shard == 0 {
 			logHelpers(r)
+			// the documented defaults the reference model reads from the library's variables
+			for name, ok := range map[string]bool{
+				`LevelFieldName="level"`: zerolog.LevelFieldName == "level", `MessageFieldName="message"`: zerolog.MessageFieldName == "message",
+				`TimestampFieldName="time"`: zerolog.TimestampFieldName == "time", `ErrorFieldName="error"`: zerolog.ErrorFieldName == "error",
+				`CallerFieldName="caller"`: zerolog.CallerFieldName == "caller", `ErrorStackFieldName="stack"`: zerolog.ErrorStackFieldName == "stack",
+				`TimeFieldFormat=RFC3339`: zerolog.TimeFieldFormat == time.RFC3339, `DurationFieldUnit=ms`: zerolog.DurationFieldUnit == time.Millisecond,
+				`DurationFieldInteger=false`: !zerolog.DurationFieldInteger, `FloatingPointPrecision=-1`: zerolog.FloatingPointPrecision == -1,
+				`CallerSkipFrameCount=2`: zerolog.CallerSkipFrameCount == 2, `ErrorStackMarshaler=nil`: zerolog.ErrorStackMarshaler == nil,
+			} {
+				r.Eval("default "+name, true)
+				if !ok {
+					r.Violation("", "defaults/"+name, "documented default does not hold: "+name, name)
+				}
+			}
 		}
 		// forks: from every chain of <= 2 steps (3 in thorough), two children of the same parent by every
 		// ordered pair of steps; the second child is created (and logs) before the first one logs
